@@ -1283,4 +1283,197 @@ theorem c10_resync_retry (cfg : Cfg) (chain : Nat → Beacon) (self : String) (h
         | cancelled => exact absurd hres hnc
       exact ⟨(key n ps1 hok).1, hd1, (key n ps1 hok).2⟩
 
+/-- reading a store that received the logged writes: the newest write of that round, else what was there before -/
+theorem lookup_foldr_put (ws : List Write) (base : BoltState) (r : Nat) :
+    lookup r (ws.foldr (fun w acc => Bolt.put acc w.stored) base) =
+      match ws.find? (fun w => decide (w.stored.round = r)) with
+      | some w => some w.stored
+      | none => lookup r base := by
+  induction ws with
+  | nil => rfl
+  | cons w ws ih =>
+    simp only [List.foldr_cons, List.find?_cons]
+    unfold Bolt.put
+    rw [c18_lookup_insert]
+    by_cases h : w.stored.round = r
+    · simp [h]
+    · have h' : ¬ r = w.stored.round := fun e => h e.symm
+      simp only [h, h', decide_false, if_false]
+      exact ih
+
+/-- **c10_check_exact.** `CheckPastBeacons upTo` reports, in ascending order, exactly the rounds `1 ≤ r ≤ min upTo head`
+whose stored beacon cannot be read back or does not verify (the store labels what it returns with the round asked
+for — C18). -/
+theorem c10_check_exact (verify : Beacon → Bool) (get : Nat → Option Beacon) (lastRound upTo : Nat)
+    (hround : ∀ r b, get r = some b → b.round = r) :
+    checkPast verify get lastRound upTo =
+      (List.range' 1 (min upTo lastRound)).filter (fun r => match get r with | none => true | some b => !verify b) := by
+  have key : ∀ k i, checkLoop verify get i k =
+      (List.range' i k).filter (fun r => match get r with | none => true | some b => !verify b) := by
+    intro k
+    induction k with
+    | zero => intro i; rfl
+    | succ k ih =>
+      intro i
+      rw [checkLoop, ih, List.range'_succ, List.filter_cons]
+      cases hg : get i with
+      | none => simp
+      | some b =>
+        have := hround i b hg
+        cases hv : verify b <;> simp [this, hv]
+  unfold checkPast
+  rw [key]
+  congr 2
+  split <;> omega
+
+/-! #### CorrectPastBeacons -/
+
+/-- on the repair path the packet is stored as it came -/
+def RawWrites (cfg : Cfg) (n0 n : Node) : Prop :=
+  ∃ ws : List Write, n.writes = ws ++ n0.writes ∧
+    n.st.base = ws.foldr (fun w acc => Bolt.put acc w.stored) n0.st.base ∧
+    ∀ w ∈ ws, cfg.verify w.pkt = true ∧ w.stored = w.pkt
+
+theorem rawWrites_inv (cfg : Cfg) (f upTo : Nat) (n0 : Node) : Inv cfg true f upTo (fun _ n => RawWrites cfg n0 n) := by
+  refine ⟨?_, fun _ _ _ h => h, fun _ _ h => h⟩
+  intro last n b ⟨ws, hw, hb, hv⟩ hver _ _
+  refine ⟨⟨b, b⟩ :: ws, by simp [store1, hw], by simp [store1, Stack.rawPut, hb], ?_⟩
+  intro w hwm
+  rcases List.mem_cons.1 hwm with rfl | hwm
+  · exact ⟨hver, rfl⟩
+  · exact hv w hwm
+
+/-- corrected variant `rangeCheck`: a repair of the rounds `fb` writes rounds of `fb` only -/
+theorem rangeWrites_inv (cfg : Cfg) (hrg : cfg.rangeCheck = true) (fb : List Nat) (x : Nat) (hx : x ∈ fb) (n0 : Node) :
+    Inv cfg true x x (fun _ n => ∃ ws : List Write, n.writes = ws ++ n0.writes ∧ ∀ w ∈ ws, w.stored.round ∈ fb) := by
+  refine ⟨?_, fun _ _ _ h => h, fun _ _ h => h⟩
+  intro last n b ⟨ws, hw, hv⟩ _ hro _
+  refine ⟨⟨b, b⟩ :: ws, by simp [store1, hw], ?_⟩
+  intro w hwm
+  rcases List.mem_cons.1 hwm with rfl | hwm
+  · have : x ≤ b.round ∧ b.round ≤ x := by unfold roundOk at hro; simpa [hrg] using hro
+    have : b.round = x := by omega
+    simp only; rw [this]; exact hx
+  · exact hv w hwm
+
+/-- every faulty round gets written when each repair is served -/
+theorem correctLoop_served (cfg : Cfg) (chain : Nat → Beacon) (self : String) (hround : ∀ r, (chain r).round = r)
+    (hcomp : ∀ r, 1 ≤ r → cfg.verify (chain r) = true) (hle : ∀ b, cfg.lastErr b = false) (H : Nat)
+    (env : Nat → List Peer × List Peer) (henv : ∀ i, RepairOK chain self H (env i)) :
+    ∀ (fb : List Nat), (∀ x ∈ fb, 1 ≤ x ∧ x ≤ H) → ∀ (i : Nat) (n : Node) (errs : Nat),
+      let r := correctLoop cfg self env i false n errs fb
+      r.2.1 = (if errs = 0 then .ok else .errors errs) ∧ r.2.2 = false ∧
+        ∃ ws, r.1.writes = ws ++ n.writes ∧ ∀ x ∈ fb, ∃ w ∈ ws, w.stored.round = x := by
+  intro fb
+  induction fb with
+  | nil => intro _ i n errs; exact ⟨by simp [correctLoop], by simp [correctLoop], [], rfl, fun _ h => by cases h⟩
+  | cons b rest ih =>
+    intro hfb i n errs
+    obtain ⟨hb1, hbH⟩ := hfb b List.mem_cons_self
+    obtain ⟨hok, hd, b', ws1, hw1, hr1, _⟩ :=
+      c10_resync_retry cfg chain self hround hcomp hle b b H hb1 (Nat.le_refl _) hbH n (env i).1 (env i).2 (henv i)
+    rw [correctLoop]
+    simp only [Bool.false_eq_true, if_false]
+    rw [hd]
+    simp only [hok, if_true]
+    obtain ⟨h1, h2, ws, hw, hall⟩ := ih (fun x hx => hfb x (List.mem_cons_of_mem _ hx)) (i + 1) _ errs
+    refine ⟨h1, h2, ws ++ (⟨b', b'⟩ :: ws1), by rw [hw, hw1]; simp, ?_⟩
+    intro x hx
+    rcases List.mem_cons.1 hx with rfl | hx
+    · exact ⟨⟨b', b'⟩, by simp, hr1⟩
+    · obtain ⟨w, hwm, hwr⟩ := hall x hx
+      exact ⟨w, List.mem_append_left _ hwm, hwr⟩
+
+/-- what a served repair leaves in the store, for either variant -/
+theorem correct_core (cfg : Cfg) (chain : Nat → Beacon) (self : String) (hround : ∀ r, (chain r).round = r)
+    (hcomp : ∀ r, 1 ≤ r → cfg.verify (chain r) = true) (hle : ∀ b, cfg.lastErr b = false) (H : Nat)
+    (env : Nat → List Peer × List Peer) (henv : ∀ i, RepairOK chain self H (env i))
+    (n : Node) (fb : List Nat) (hfb : ∀ x ∈ fb, 1 ≤ x ∧ x ≤ H) :
+    let r := correctPast cfg self env n fb
+    r.2.1 = .ok ∧
+    (∀ x, x ∈ fb → ∃ b, lookup x r.1.st.base = some b ∧ cfg.verify b = true ∧ b.round = x) ∧
+    (∀ x, lookup x r.1.st.base = lookup x n.st.base ∨
+        ∃ b, lookup x r.1.st.base = some b ∧ cfg.verify b = true ∧ b.round = x) ∧
+    (cfg.rangeCheck = true → ∀ x, x ∉ fb → lookup x r.1.st.base = lookup x n.st.base) := by
+  have hraw := correctLoop_ind (cfg := cfg) (self := self) (env := env) (P := fun _ m => RawWrites cfg n m) fb
+    (fun x _ _ => rawWrites_inv cfg x x n) 0 false n 0 ⟨[], rfl, rfl, fun _ h => by cases h⟩
+  obtain ⟨hres, _, ws', hw', hall⟩ := correctLoop_served cfg chain self hround hcomp hle H env henv fb hfb 0 n 0
+  obtain ⟨ws, hw, hbase, hv⟩ := hraw
+  have hws : ws' = ws := by
+    have : ws' ++ n.writes = ws ++ n.writes := by rw [← hw', ← hw]
+    exact List.append_cancel_right this
+  subst hws
+  have hlook := fun x => lookup_foldr_put ws' n.st.base x
+  have found : ∀ x w, ws'.find? (fun w => decide (w.stored.round = x)) = some w →
+      ∃ b, lookup x (correctPast cfg self env n fb).1.st.base = some b ∧ cfg.verify b = true ∧ b.round = x := by
+    intro x w hf
+    have hm := List.mem_of_find?_eq_some hf
+    have hp := List.find?_some hf
+    obtain ⟨hver, hst⟩ := hv w hm
+    refine ⟨w.stored, ?_, by rw [hst]; exact hver, by simpa using hp⟩
+    unfold correctPast
+    rw [hbase, hlook x, hf]
+  refine ⟨by simpa [correctPast] using hres, ?_, ?_, ?_⟩
+  · intro x hx
+    obtain ⟨w, hwm, hwr⟩ := hall x hx
+    cases hf : ws'.find? (fun w => decide (w.stored.round = x)) with
+    | none => exact absurd hwr (by simpa using List.find?_eq_none.1 hf w hwm)
+    | some w' => exact found x w' hf
+  · intro x
+    cases hf : ws'.find? (fun w => decide (w.stored.round = x)) with
+    | none => left; unfold correctPast; rw [hbase, hlook x, hf]
+    | some w' => right; exact found x w' hf
+  · intro hrg x hx
+    have hrange := correctLoop_ind (cfg := cfg) (self := self) (env := env)
+      (P := fun _ m => ∃ ws : List Write, m.writes = ws ++ n.writes ∧ ∀ w ∈ ws, w.stored.round ∈ fb) fb
+      (fun y hy _ => rangeWrites_inv cfg hrg fb y hy n) 0 false n 0 ⟨[], rfl, fun _ h => by cases h⟩
+    obtain ⟨ws2, hw2, hin⟩ := hrange
+    have : ws2 = ws' := by
+      have : ws2 ++ n.writes = ws' ++ n.writes := by rw [← hw2, ← hw]
+      exact List.append_cancel_right this
+    subst this
+    have hf : ws2.find? (fun w => decide (w.stored.round = x)) = none := by
+      apply List.find?_eq_none.2
+      intro w hwm
+      have := hin w hwm
+      simp only [decide_eq_true_eq]
+      intro e; rw [e] at this; exact hx this
+    unfold correctPast
+    rw [hbase, hlook x, hf]
+
+/-- **c10_correct_exact** (corrected variant `rangeCheck`: on the repair path tryNode refuses rounds outside
+`[from, upTo]`). `CorrectPastBeacons fb`, every faulty round held by an honest peer that is reached (before any stalling
+peer) at the first attempt or at the retry, the other peers behaving arbitrarily: the repair reports success, the store
+differs from before exactly on `fb`, and every round of `fb` now holds a verifying beacon of that round. -/
+theorem c10_correct_exact (cfg : Cfg) (hrg : cfg.rangeCheck = true) (chain : Nat → Beacon) (self : String)
+    (hround : ∀ r, (chain r).round = r) (hcomp : ∀ r, 1 ≤ r → cfg.verify (chain r) = true)
+    (hle : ∀ b, cfg.lastErr b = false) (H : Nat) (env : Nat → List Peer × List Peer)
+    (henv : ∀ i, RepairOK chain self H (env i)) (n : Node) (fb : List Nat) (hfb : ∀ x ∈ fb, 1 ≤ x ∧ x ≤ H) :
+    let r := correctPast cfg self env n fb
+    r.2.1 = .ok ∧
+    (∀ x, x ∈ fb → ∃ b, lookup x r.1.st.base = some b ∧ cfg.verify b = true ∧ b.round = x) ∧
+    (∀ x, x ∉ fb → lookup x r.1.st.base = lookup x n.st.base) := by
+  obtain ⟨a, b, _, d⟩ := correct_core cfg chain self hround hcomp hle H env henv n fb hfb
+  exact ⟨a, b, d hrg⟩
+
+/-
+Full statement wanted for the as-is code: as c10_correct_exact without `rangeCheck`. It does not hold: on the repair
+path tryNode writes *any* verifying beacon the peer streams straight into the base store (`insecureStore`), whatever
+its round, so a lying peer tried before the honest one changes rounds outside `fb` — including rounds beyond the head,
+which leaves a gap (`c10_correct_counterexample`). What remains true:
+-/
+/-- **c10_correct_partial** (as-is code): same hypotheses; the repair reports success and every round of `fb` now holds a
+verifying beacon of that round; a round outside `fb` is either untouched or now holds a verifying beacon of that round. -/
+theorem c10_correct_partial (cfg : Cfg) (chain : Nat → Beacon) (self : String)
+    (hround : ∀ r, (chain r).round = r) (hcomp : ∀ r, 1 ≤ r → cfg.verify (chain r) = true)
+    (hle : ∀ b, cfg.lastErr b = false) (H : Nat) (env : Nat → List Peer × List Peer)
+    (henv : ∀ i, RepairOK chain self H (env i)) (n : Node) (fb : List Nat) (hfb : ∀ x ∈ fb, 1 ≤ x ∧ x ≤ H) :
+    let r := correctPast cfg self env n fb
+    r.2.1 = .ok ∧
+    (∀ x, x ∈ fb → ∃ b, lookup x r.1.st.base = some b ∧ cfg.verify b = true ∧ b.round = x) ∧
+    (∀ x, lookup x r.1.st.base = lookup x n.st.base ∨
+        ∃ b, lookup x r.1.st.base = some b ∧ cfg.verify b = true ∧ b.round = x) := by
+  obtain ⟨a, b, c, _⟩ := correct_core cfg chain self hround hcomp hle H env henv n fb hfb
+  exact ⟨a, b, c⟩
+
 end Drand.Beacon.Sync
